@@ -4,7 +4,7 @@
    correspondence check.  Grouping by several granularities of one dimension is an instance of C01_rows (dimension expressions
    `Trunc g e` of Model/Sem.v). *)
 From Coq Require Import ZArith String List Bool.
-Require Import V.Base.Calendar V.Base.CalendarFacts V.Model.Refresh V.Model.TimeDim V.Proofs.C07_proofs.
+Require Import V.Base.Calendar V.Base.CalendarFacts V.Model.Refresh V.Model.TimeDim V.Gen.TimeDim_gen V.Proofs.C07_proofs.
 Import ListNotations.
 
 (* truncation to hour / day / ISO week (Monday) / month / quarter / year is the floor onto the bucket starts, for EVERY timestamp:
@@ -30,6 +30,13 @@ Theorem C07_default_only_if : forall ms metrics dims r, In r (apply_defaults ms 
   exists m, find_tm ms (dr_model r) = Some m /\ In (Some (dr_model r)) metrics /\ tm_default m = Some (dr_dim r) /\ dr_gran r = tm_grain m
             /\ mem_s (dr_model r) (models_with_time ms dims) = false.
 Proof. exact default_added_only_if. Qed.
+
+(* TIE BY REGENERATION: Gen/TimeDim_gen.v holds what SQLGenerator._apply_default_time_dimensions returns on 1008 scripted scenarios (two
+   models with / without a default time dimension and default grain, seven metric lists incl. graph-level and unknown-model references,
+   nine dimension lists), extracted from generator.py on every run by executing the function's AST (translator/gen_timedim.py, fail
+   closed, validated against CPython).  On every scenario the model `apply_defaults` the theorems above are about returns the same list. *)
+Theorem C07_default_table : forallb (fun row => let '(ms, metrics, dims, res) := row in drefs_eqb (apply_defaults ms metrics dims) res) default_rows = true.
+Proof. vm_compute. reflexivity. Qed.
 
 (* a granularity on a field that exists but is not a time dimension is a validation error *)
 Theorem C07_reject_nontime : forall ms d g m, dr_gran d = Some g -> find_tm ms (dr_model d) = Some m ->
